@@ -713,7 +713,11 @@ def expr_program(cases, opaque=True):
             linemap += [j, j]
         else:
             t2 = BYNAME[op[3:]]
-            main += [{"k": "let", "n": "r%d" % j, "dty": t2[0], "e": {"k": "cast", "e": va, "ty": tyj(t2)}},
-                     {"k": "print", "e": {"k": "var", "n": "r%d" % j}}]
-            linemap += [j]
+            ce = {"k": "cast", "e": va, "ty": tyj(t2)}
+            main += [{"k": "let", "n": "r%d" % j, "dty": t2[0], "e": ce},
+                     {"k": "print", "e": {"k": "var", "n": "r%d" % j}},
+                     # the converted value consumed by a division before it is stored
+                     {"k": "let", "n": "q%d" % j, "dty": t2[0], "e": {"k": "bin", "op": "/", "l": ce, "r": lit_ast(t2, 3), "ty": tyj(t2)}},
+                     {"k": "print", "e": {"k": "var", "n": "q%d" % j}}]
+            linemap += [j, j]
     return {"funcs": funcs, "main": main, "types": []}, linemap
